@@ -61,9 +61,12 @@ def runHistory (pk : PublicKey) (sk : PrivateKey) (nu0 : Int) (time0 : Int) (ste
       let uid ← getStr st "u"
       let frm ← getNat st "from"
       let to ← getNat st "to"
+      let badnu := (getBool st "badnu").toOption.getD false
       match h.accs[to]? with
       | none => throw "bad to"
-      | some sacc =>
+      | some sacc0 =>
+        -- "badnu": an issuer-signed accumulator whose value does not match its events
+        let sacc := if badnu then { sacc0 with nu := sacc0.nu * 4 % pk.n } else sacc0
         let evs := (h.events.drop frm).take (to + 1 - frm)
         h := { h with updates := (uid, { sacc := sacc, events := evs }) :: h.updates.filter (·.1 ≠ uid) }
         out := out ++ ["update-ok"]
@@ -78,6 +81,13 @@ def runHistory (pk : PublicKey) (sk : PrivateKey) (nu0 : Int) (time0 : Int) (ste
         out := out ++ [s!"{showRes res}:{w'.sacc.index}:{witnessValid pk w'}"]
         us := us ++ [hexOfInt w'.u]
       | _, _ => throw "unknown witness/update"
+    | "corruptw" =>
+      let wid ← getStr st "w"
+      match h.witnesses.lookup wid with
+      | some w =>
+        h := { h with witnesses := (wid, { w with u := (w.u + 1) % pk.n }) :: h.witnesses.filter (·.1 ≠ wid) }
+        out := out ++ ["corrupt-ok"]
+      | none => throw "unknown witness"
     | "clonew" =>
       let src ← getStr st "from"
       let dst ← getStr st "to"
